@@ -265,6 +265,14 @@ def scenarios(tier):
              ['set_a', 'shared_bc_other_solves'], ['add_var', 'newtonCooling'], ['apply_BCs', 'value_slice'], ['solvePDE', 'update_value'],
              ['fixedGradient', 'solveExplicitPDE'], ['neg', 'solvePDE'], ['solveExplicitPDE', 'solveExplicitPDE'],
              ['set_a', 'solveExplicitPDE_keep_input'], ['periodic_on', 'solveExplicitPDE_keep_input'], ['solveExplicitPDE_keep_input', 'set_c']]
+    # every (settling operation, settling operation, edit) triple: caches filled twice in different ways, then invalidated
+    settle = ['solvePDE', 'solveExplicitPDE', 'solveExplicitPDE_keep_input', 'apply_BCs']
+    edits3 = ['set_a', 'set_b_slice', 'periodic_on', 'value_slice', 'fixedValue']
+    cover3 = [[a, b, e] for a in settle for b in settle for e in edits3]
+    al1 = alphabet('Grid1D', [2])
+    for final, style in (('implicit', 'passed'), ('implicit', 'default'), ('explicit', 'default')):
+        add('Grid1D', [2], [q for q in cover3 if all(x in al1 for x in q)], final, style)
+    cover = cover + [q for q in cover3 if q[0] != q[1]][::3]
     for g, dims in (('CylindricalGrid1D', [2]), ('Grid2D', [2, 2]), ('PolarGrid2D', [2, 2]), ('Grid3D', [2, 2, 2])):
         al = alphabet(g, dims)
         s1 = [[]] + [[a] for a in al]
